@@ -415,13 +415,17 @@ pub(crate) fn add_int_permutation<W, R, T>(
             }
             rt.can_allocate(k)?;
             let mut ret = Vec::with_capacity(k);
+            // the loops take up to k*k steps: each draws on the search budget
+            let mut search = rt.limits.search_iter();
             for j in (0..k).rev(){
+                search.next().unwrap()?;
                 ret.push(i % (n-j));
                 i /= n-j;
             }
             ret.reverse();
             for t0 in (1..k).rev(){
                 for t1 in (0..t0).rev(){
+                    search.next().unwrap()?;
                     if ret[t1] <= ret[t0]{
                         ret[t0] += 1;
                     }
@@ -481,7 +485,10 @@ pub(crate) fn add_int_combination<W, R, T>(
             let mut s = 0;
             rt.can_allocate(k)?;
             let mut ret = Vec::with_capacity(k);
+            // the loop takes up to n steps: each draws on the search budget
+            let mut search = rt.limits.search_iter();
             while k > 0{
+                search.next().unwrap()?;
                 if i < s_cutoff{
                     ret.push(s);
                     if k > 1{
@@ -536,7 +543,10 @@ pub(crate) fn add_int_combination_with_replacement<W, R, T>(
             let mut s = 0;
             rt.can_allocate(k)?;
             let mut ret = Vec::with_capacity(k);
+            // the loop takes up to n steps: each draws on the search budget
+            let mut search = rt.limits.search_iter();
             while k > 0{
+                search.next().unwrap()?;
                 if i < s_cutoff{
                     ret.push(s);
                     if k > 1{
